@@ -293,6 +293,18 @@ def isReported (fv : FileView Doc) : Bool :=
   | .unreadable _ => true
   | .ok _ t => (parseDoc t).isNone || t.kind == .lossy
 
+/-- optional init edit `e<doc>.<mtime>`: the file as the second look of the initialisation finds it -/
+def decInitEdit (docs : List Doc) (s : String) : Option (FileView Doc) :=
+  match s.toList with
+  | 'e' :: r =>
+    match splitOnChar '.' (String.ofList r) with
+    | [d, m] => do
+      let d ← decNat d; let m ← decNat m
+      let doc ← docs[d]?
+      pure (.ok m doc)
+    | _ => none
+  | _ => none
+
 def handleReload (docsS initS stepsS : String) (obs : List String) : Answer :=
   match mapM? decDoc (decList ';' docsS) with
   | none => badCase "docs"
@@ -300,22 +312,34 @@ def handleReload (docsS initS stepsS : String) (obs : List String) : Answer :=
     let initF := splitOnChar ':' initS
     let pk := match initF with
       | [_, _, _] => "f"
-      | [_, _, _, k] => k
+      | _ :: _ :: _ :: k :: _ => k
       | _ => "?"
-    match initF.take 3, mapM? (decStep docs) (decList ',' stepsS), pathKindTags pk stepsS with
-    | [d0, m0, forget], some views, some pkTags =>
+    let edit : Option (Option (FileView Doc)) := match initF with
+      | [_, _, _, _, e] => (decInitEdit docs e).map some
+      | [_, _, _] => some none
+      | [_, _, _, _] => some none
+      | _ => none
+    match initF.take 3, mapM? (decStep docs) (decList ',' stepsS), pathKindTags pk stepsS, edit with
+    | [d0, m0, forget], some views, some pkTags, some edit =>
       match (decNat d0).bind (docs[·]?), decNat m0, decBool forget with
       | some doc0, some m0, some forget =>
-        let mt : Option Mtime := if forget then none else some m0
-        match initState parseDoc mt doc0, obs with
+        let v1 : FileView Doc := .ok m0 doc0
+        let v2 : FileView Doc := edit.getD v1
+        let editTags := if edit.isSome then ["edit-during-init"] else []
+        match initState2 parseDoc initStatsBeforeRead forget v1 v2, obs with
         | none, [implS] =>
           { model := "init-err", spec := if implS = "init-err" then "ok" else "FAIL:init accepted an unparsable file;sig=C15/reload-init",
             tags := ["reload", "trivial"] }
         | some st0, [implS] =>
           let states := pollAll parseDoc codeFixed st0 views
           let model := ",".intercalate (renderState "init" st0 :: states.map (fun p => renderState (actionName p.1) p.2))
-          let tags := "reload" :: (reloadTags st0 views ++ pkTags)
+          let tags := "reload" :: (reloadTags st0 views ++ pkTags ++ editTags)
           let implParts := splitOnChar ',' implS
+          if implS = "init-err" then
+            -- acceptable only if one of the two versions is unusable
+            { model, spec := if (v1.text?.bind parseDoc).isNone ∨ (v2.text?.bind parseDoc).isNone then "ok"
+                             else "FAIL:init rejected a valid file;sig=C15/reload-init", tags }
+          else
           match mapM? decPollObs implParts with
           | none =>
             { model, spec := "FAIL:" ++ (if implS = "PANIC" then "panic" else "unreadable observation") ++ ";sig=C15/reload-observation", tags }
@@ -324,27 +348,31 @@ def handleReload (docsS initS stepsS : String) (obs : List String) : Answer :=
             if n0 ≠ "init" ∨ ps.length ≠ views.length ∨ ps.any (fun p => (decAction p.1).isNone) then
               { model, spec := "FAIL:observation shape;sig=C15/reload-observation", tags }
             else
-              let verdict := specHistory parseDoc mt doc0 i0 (List.zip views (ps.map (·.2)))
+              let verdict := specHistory2 parseDoc forget v1 v2 i0 (List.zip views (ps.map (·.2)))
               let spec := match verdict with
                 | none => "ok"
                 | some (i, why) =>
-                  -- classify: the implementation behaves exactly as the model of the unpatched code, a failed
-                  -- read consumed an mtime earlier in this history and the code model with
-                  -- the patch (`fixed = true`) satisfies the whole spec on it ⇒ the known defect (a changed
-                  -- file is applied late or never)
-                  let fixedStates := pollAll parseDoc true st0 views
-                  let fixedObs : List PollObs := fixedStates.map (fun p => { action := p.1, active := p.2.active, rate := p.2.rate, alive := p.2.alive })
-                  let fixedOk := (specHistory parseDoc mt doc0 i0 (List.zip views fixedObs)).isNone
+                  let obsOfStates (sts : List (Action × RState Doc)) : List PollObs :=
+                    sts.map (fun p => { action := p.1, active := p.2.active, rate := p.2.rate, alive := p.2.alive })
+                  -- (1) known class: a failed read consumed an mtime (only while `codeFixed = false`)
+                  let fixedOk := (specHistory2 parseDoc forget v1 v2 i0 (List.zip views (obsOfStates (pollAll parseDoc true st0 views)))).isNone
+                  -- (2) an edit landed inside the initialisation, the implementation behaves exactly as the
+                  -- model of "read, then stat", and the model of "stat, then read" satisfies the whole spec
+                  let statFirstOk : Bool := match initState2 parseDoc true forget v1 v2 with
+                    | some st1 =>
+                      let i1 : PollObs := { action := .unchanged, active := st1.active, rate := st1.rate, alive := st1.alive }
+                      (specHistory2 parseDoc forget v1 v2 i1 (List.zip views (obsOfStates (pollAll parseDoc codeFixed st1 views)))).isNone
+                    | none => false
                   let cls := if fixedOk ∧ implS = model ∧ tags.contains "mtime-consumed-by-failed-read"
                     then "reload-mtime-consumed-by-failed-read"
+                    else if edit.isSome ∧ implS = model ∧ statFirstOk ∧ !initStatsBeforeRead then "init-read-then-stat"
                     else if pk ≠ "f" ∧ why = "changed-not-applied" then "symlink-target-edit-not-seen"
                     else "reload-" ++ String.ofList (why.toList.takeWhile (fun c => c.isAlpha || c == '-'))
                   s!"FAIL:{why} at poll {i};sig=C15/{cls}"
               { model, spec, tags }
         | _, _ => badCase "arity"
       | _, _, _ => badCase "init"
-    | _, _, _ => badCase "steps"
-
+    | _, _, _, _ => badCase "steps"
 
 /-! ### (b) the real reloader thread (child processes) -/
 
@@ -373,23 +401,39 @@ def handleHistory (docs : List Doc) (hist : String) (implS : String) : Option Hi
     -- optional: path kind (f l d) and stderr kind (n = /dev/null, p = pipe with closed reading end)
     let (pk, ek) := match initF with
       | [_, _] => ("f", "n")
-      | [_, _, k, e] => (k, e)
+      | _ :: _ :: k :: e :: _ => (k, e)
       | _ => ("?", "?")
-    match initF.take 2, mapM? (decTStep docs) (decList ',' stepsS), pathKindTags pk stepsS, (ek == "n" || ek == "p") with
-    | [d0, m0], some steps, some pkTags, true =>
+    -- optional 5th component: an edit landing inside init_file between its two looks at the file
+    let edit : Option (Option (FileView Doc)) := match initF with
+      | [_, _, _, _, e] => (decInitEdit docs e).map some
+      | [_, _] => some none
+      | [_, _, _, _] => some none
+      | _ => none
+    match initF.take 2, mapM? (decTStep docs) (decList ',' stepsS), pathKindTags pk stepsS, (ek == "n" || ek == "p"), edit with
+    | [d0, m0], some steps, some pkTags, true, some edit =>
       match (decNat d0).bind (docs[·]?), decNat m0 with
       | some doc0, some m0 =>
-        match initState parseDoc (some m0) doc0 with
+        let v1 : FileView Doc := .ok m0 doc0
+        let v2 : FileView Doc := edit.getD v1
+        let (m2, doc2) : Mtime × Doc := match v2 with
+          | .ok m d => (m, d)
+          | _ => (m0, doc0)
+        match initState2 parseDoc initStatsBeforeRead false v1 v2 with
         | none =>
           some { model := "init-err", fail := if implS = "init-err" then none else some "init accepted an unparsable file;sig=C15/thread-init",
                  tags := ["trivial"] }
         | some st0 =>
-          let obs := threadRun parseDoc codeFixed st0 (.ok m0 doc0) steps
+          if implS = "init-err" then
+            some { model := "-", fail := if (parseDoc doc0).isNone ∨ (parseDoc doc2).isNone then none
+                                         else some "init rejected a valid file;sig=C15/thread-init", tags := ["trivial"] }
+          else
+          let obs := threadRun parseDoc codeFixed st0 v2 steps
           let model := ",".intercalate (s!"init:{st0.active}:{encBool st0.alive}" :: obs.map renderTObs)
           let views : List (FileView Doc) := steps.filterMap (fun s => match s with | .edit fv => some fv | .longWait => none)
           let tags := (reloadTags st0 views).filter (· ≠ "no-mtime") ++
             (if obs.any (fun o => !o.polled) then ["slow-rate-sleeps"] else []) ++
             (if steps.contains .longWait then ["long-wait"] else []) ++ pkTags ++
+            (if edit.isSome then ["edit-during-init"] else []) ++
             (if ek = "p" then
                ["stderr-closed-pipe"] ++
                -- a reported poll failure followed (later) by a valid change that must still be applied
@@ -407,12 +451,13 @@ def handleHistory (docs : List Doc) (hist : String) (implS : String) : Option Hi
                 match decNat a0, decBool al0 with
                 | some a0, some al0 =>
                   if ps.length ≠ steps.length then some "observation shape;sig=C15/thread-observation" else
-                  match specThread m0 doc0 a0 al0 (List.zip steps ps) with
+                  match specThread m0 doc0 m2 doc2 a0 al0 (List.zip steps ps) with
                   | none => none
                   | some (i, why) =>
                     let reportedBefore := (steps.take i).any (fun st => match st with | .edit fv => isReported fv | .longWait => false)
                     let cls :=
-                      if ek = "p" ∧ reportedBefore then "poll-loop-dies-on-error-report"
+                      if edit.isSome ∧ implS = model ∧ !initStatsBeforeRead then "init-read-then-stat"
+                      else if ek = "p" ∧ reportedBefore then "poll-loop-dies-on-error-report"
                       else if pk ≠ "f" ∧ why = "changed-not-applied" then "symlink-target-edit-not-seen"
                       else "thread-" ++ String.ofList (why.toList.takeWhile (fun c => c.isAlpha || c == '-'))
                     some s!"{why} at step {i};sig=C15/{cls}"
@@ -420,7 +465,7 @@ def handleHistory (docs : List Doc) (hist : String) (implS : String) : Option Hi
               | _, _ => some ("unreadable observation (" ++ implS ++ ");sig=C15/thread-observation")
           some { model, fail, tags }
       | _, _ => none
-    | _, _, _, _ => none
+    | _, _, _, _, _ => none
   | _ => none
 
 def handleThread (docsS histsS : String) (obs : List String) : Answer :=
@@ -442,12 +487,69 @@ def handleThread (docsS histsS : String) (obs : List String) : Answer :=
   | none, _ => badCase "docs"
   | _, _ => badCase "arity"
 
+/-! ### (a) racing `set_config` calls through the facade (child process) -/
+
+def decFEvent (n : Nat) (s : String) : Option FEvent :=
+  match s.toList with
+  | 'a' :: r => (decNat (String.ofList r)).bind (fun k => if 1 ≤ k ∧ k < n then some (FEvent.enter k) else none)
+  | 's' :: r => (decNat (String.ofList r)).bind (fun k => if 1 ≤ k ∧ k < n then some (FEvent.finish k) else none)
+  | _ => none
+
+def renderNatList (xs : List Nat) : String :=
+  if xs.isEmpty then "~" else "+".intercalate ((xs.toArray.qsort (· < ·)).toList.map toString)
+
+def decNatPlus (s : String) : Option (List Nat) := if s = "~" then some [] else mapM? decNat (splitOnChar '+' s)
+
+def renderFSys (cfgs : List MiniCfg) (probes : List (Target × Level)) (s : FSys) : String :=
+  s!"{s.maxLevel}:{renderNatList s.atHook}:{renderNatList s.done}:" ++
+    "/".intercalate (probes.map (fun p => renderDeliveries (s.record cfgs p.1 p.2)))
+
+/-- observation entry `max:hook:done:probe/probe/…`; a delivery list itself contains `:` -/
+def decRaceObs (s : String) : Option RaceObs :=
+  match splitOnChar ':' s with
+  | _max :: hook :: done :: rest => do
+    let hook ← decNatPlus hook
+    let done ← decNatPlus done
+    let outs ← mapM? decDeliveries (splitOnChar '/' (":".intercalate rest))
+    pure { hook, done, outs }
+  | _ => none
+
+def handleRace (cfgsS schedS probesS : String) (obs : List String) : Answer :=
+  match decCfgs cfgsS with
+  | none => badCase "cfgs"
+  | some cfgs =>
+    match mapM? (decFEvent cfgs.length) (decList ',' schedS), mapM? decProbe (decList ',' probesS), obs with
+    | some sched, some probes, [implS] =>
+      if probes.isEmpty then badCase "probes" else
+      let states := FSys.states setConfigSerialised cfgs (FSys.init cfgs) sched
+      let model := ";".intercalate (states.map (renderFSys cfgs probes))
+      let overlap := states.any (fun s => s.atHook.length + s.waiting.length ≥ 2)
+      let final := states.getLast?
+      let tags := ["race"] ++ (if overlap then ["overlapping-set_config"] else ["sequential-set_config"]) ++
+        (if states.any (fun s => !s.waiting.isEmpty) then ["blocked-on-lock"] else []) ++
+        (match final with
+         | some s => if s.quiescent && s.maxLevel ≠ cfgMax cfgs s.store then ["facade-level-of-another-config"] else []
+         | none => [])
+      match mapM? decRaceObs (splitOnChar ';' implS) with
+      | none => { model, spec := "FAIL:" ++ (if implS = "PANIC" then "panic" else "unreadable observation") ++ ";sig=C15/race-observation", tags }
+      | some ros =>
+        if ros.length ≠ sched.length + 1 then { model, spec := "FAIL:observation shape;sig=C15/race-observation", tags } else
+        let spec := match specRace cfgs probes sched ros with
+          | none => "ok"
+          | some why =>
+            let cls := if why.startsWith "two-writers" then "set-config-two-writers-mixed"
+                       else "race-" ++ String.ofList (why.toList.takeWhile (fun c => c.isAlpha))
+            s!"FAIL:{why};sig=C15/{cls}"
+        { model, spec, tags }
+    | _, _, _ => badCase "race-fields"
+
 def handle : Handler := fun cas obs =>
   match cas with
   | ["swap", cfgs, scripts, ops] => handleSwap cfgs scripts ops obs
   | ["stress", cfgs, nLog, nRec, iters, probes] => handleStress cfgs nLog nRec iters probes obs
   | ["reload", docs, init, steps] => handleReload docs init steps obs
   | ["thread", docs, hists] => handleThread docs hists obs
+  | ["race", cfgs, sched, probes] => handleRace cfgs sched probes obs
   | _ => badCase "kind"
 
 end Driver.C15
